@@ -180,7 +180,7 @@ def escapeQuotes : Str → Str
 /-- `v.replace('\\', "\\\\")`: every backslash of the doc text is doubled -/
 def escapeBackslashes (s : Str) : Str := Str.replaceChar s '\\' s%"\\\\"
 
-/-- one doc line inside a docstring (since the `fix:` commit 37d8a26):
+/-- one doc line inside a docstring (since the `fix:` commit af54d85):
 `v.replace('\\', "\\\\").replace("\"\"\"", "\\\"\\\"\\\"")` — backslashes first, then `\"\"\"` -/
 def escapeDoc (s : Str) : Str := escapeQuotes (escapeBackslashes s)
 
@@ -239,7 +239,7 @@ def addCommonImports (st : St) (isOptional requiresCustom isAliased : Bool) : St
   if isAliased || isOptional then addImport st kPydantic s%"Field" else st
 
 /-- `write_field` as a fact record plus the state update.  The type registered for function
-generation is the *unwrapped* `python_type` (`bytes` / `datetime`; since the `fix:` commit ab2f0e6 —
+generation is the *unwrapped* `python_type` (`bytes` / `datetime`; since the `fix:` commit 0d6268d —
 before it the `Optional[..]`-wrapped field type of a defaulted field was registered, for which
 `json_translation_for_type` has no functions). -/
 def fieldFacts (E : Ext) (cfg : Cfg) (gens : List Str) (f : RustField) (st : St) : Outcome (PyField × St) :=
@@ -313,7 +313,7 @@ type variables); the doc comment is written *after* the assignment -/
 def renderAlias (a : PyAlias) : Str :=
   a.name ++ s%" = " ++ a.ty ++ s%"\n\n" ++ docstring 0 a.comments
 
-/-- `write_type_alias` (since the `fix:` commit 614135b): the type is formatted first, then every
+/-- `write_type_alias` (since the `fix:` commit f8d1040): the type is formatted first, then every
 generic parameter is registered with `add_type_var` -/
 def aliasFacts (cfg : Cfg) (a : RustTypeAlias) (st : St) : Outcome (PyAlias × St) :=
   (formatType cfg a.genericTypes a.ty st).bind fun (ty, st) =>
@@ -501,7 +501,7 @@ def writeItems (E : Ext) (cfg : Cfg) : List RustItem → St → Outcome (Str × 
     (writeItems E cfg its st).bind fun (b, st) => .ok (a ++ b, st)
 
 /-- `if self.types_for_custom_json_translation.contains("datetime") { self.add_import("datetime", "datetime") }`
-(`fix:` commit 062e77e): the datetime translation functions mention `datetime` themselves, whatever
+(`fix:` commit bfc37c3): the datetime translation functions mention `datetime` themselves, whatever
 Rust type was mapped to it -/
 def addDatetimeImport (st : St) : St :=
   if st.customJson.contains s%"datetime" then addImport st s%"datetime" s%"datetime" else st
